@@ -889,6 +889,10 @@ fn replay(sink: &mut Sink, p: &std::path::Path) {
     }
 }
 
+fn is_py_case(p: &std::path::Path) -> bool {
+    std::fs::read_to_string(p).ok().and_then(|s| serde_json::from_str::<Value>(&s).ok()).map(|v| v["case"]["kind"] == "py-partition").unwrap_or(false)
+}
+
 pub fn is_pipeline_case(p: &std::path::Path) -> bool {
     std::fs::read_to_string(p).ok().and_then(|s| serde_json::from_str::<Value>(&s).ok()).map_or(false, |v| v["case"]["kind"].as_str().map_or(false, |k| k.starts_with("c01")))
 }
@@ -1035,11 +1039,17 @@ pub fn run(args: &Args) {
     let mut sink = Sink::new("C01", &args.out, &["Model.Buffer"], args.seed, &args.tier);
     sink.rule(sink_rule());
     if let Some(p) = &args.replay {
-        replay_for(Prop::C01, &mut sink, p);
+        if is_py_case(p) {
+            let mut rng = Rng::new(args.seed);
+            crate::c01py::run(&mut sink, args, &mut rng);
+        } else {
+            replay_for(Prop::C01, &mut sink, p);
+        }
         sink.finish();
         return;
     }
     let mut rng = Rng::new(args.seed);
     pipeline(Prop::C01, &mut sink, args, &mut rng);
+    crate::c01py::run(&mut sink, args, &mut rng);
     sink.finish();
 }
